@@ -69,6 +69,7 @@ type Contract struct {
 	MayPanic    bool
 	File        string
 	InlineCalls map[string]int // callee name -> unroll bound (0: callee loops need contracts)
+	AlsoModifies bool
 }
 
 type rawClause struct {
@@ -417,7 +418,7 @@ func (w *World) cellFor(fn *ssa.Function, v *types.Var) *ssa.Alloc {
 
 // ---- contract files
 
-var kwRe = regexp.MustCompile(`^(inline_call|func|extern|lemma|requires|ensures|modifies|invariant|decreases|loop|nopanic|pure|inline|opaque|trusted|property|ghost_set|at|const_global|ghost_global|may_panic)\b`)
+var kwRe = regexp.MustCompile(`^(also_modifies|inline_call|func|extern|lemma|requires|ensures|modifies|invariant|decreases|loop|nopanic|pure|inline|opaque|trusted|property|ghost_set|at|const_global|ghost_global|may_panic)\b`)
 
 func (w *World) parseContracts(p *packages.Package) error {
 	for i, f := range p.Syntax {
@@ -670,8 +671,14 @@ func (w *World) elaborate(c *Contract) error {
 					}
 				}
 			}
-		case "modifies":
-			c.HasModifies = true
+		case "modifies", "also_modifies":
+			// modifies: exact frame (checked when the function is verified). also_modifies: everything reachable
+			// from the arguments may change (the default for calls) and additionally the listed (ghost) locations.
+			if rc.kw == "modifies" {
+				c.HasModifies = true
+			} else {
+				c.AlsoModifies = true
+			}
 			if strings.TrimSpace(rc.text) == "nothing" {
 				continue
 			}
@@ -1009,6 +1016,39 @@ func (w *World) globalHasInit(g *ssa.Global) bool {
 		for _, in := range b.Instrs {
 			if st, ok := in.(*ssa.Store); ok && st.Addr == ssa.Value(g) {
 				return true
+			}
+		}
+	}
+	return false
+}
+
+// globalInitNonNil reports whether g is stable and its initialiser stores a freshly constructed (non-nil) value.
+func (w *World) globalInitNonNil(g *ssa.Global) bool {
+	if !w.globalStable(g) {
+		return false
+	}
+	init := g.Pkg.Func("init")
+	if init == nil || len(init.Blocks) == 0 {
+		// package known from export data only: exported sentinel errors (io.EOF, fslock.ErrTimeout, ...) are non-nil
+		n := g.Name()
+		return strings.HasPrefix(n, "Err") || n == "EOF"
+	}
+	for _, b := range init.Blocks {
+		for _, in := range b.Instrs {
+			st, ok := in.(*ssa.Store)
+			if !ok || st.Addr != ssa.Value(g) {
+				continue
+			}
+			switch v := st.Val.(type) {
+			case *ssa.MakeInterface:
+				return true
+			case *ssa.Call:
+				if f := v.Call.StaticCallee(); f != nil {
+					switch f.String() {
+					case "errors.New", "fmt.Errorf":
+						return true
+					}
+				}
 			}
 		}
 	}
